@@ -16,8 +16,8 @@ using eng::Op; using eng::Case; using eng::Result; using eng::fail_now; using en
 #define KiB ((size_t)1024)
 #define MiB (KiB*KiB)
 enum { MI_VF_LOAD = 0, MI_VF_STORE, MI_VF_XCHG, MI_VF_RMW, MI_VF_CAS, MI_VF_LOCK, MI_VF_UNLOCK };
-enum { F_PREEMPT_IN_CALL = 0, F_CONFLICT, F_SPURIOUS_CAS, F_REMOTE_FREE, F_THREAD_DONE_LIVE, F_RECLAIM_SEEN, F_HEAP_DELETE_RACE, F_DELAYED_PATH, F_QUIESCENT_EMPTY, F_ARENA_ROLLBACK, F_BITMAP_CROSS, F_PC_RUN, F_NFLAGS };
-static const char* FLAG_NAMES[] = { "preempt_inside_call", "conflicting_rmw_while_preempted", "spurious_weak_cas_failure", "remote_free", "thread_done_with_live_blocks", "abandoned_segment_reclaimed_or_freed_remotely", "heap_delete_or_collect_raced", "first_remote_free_delayed_path", "quiescent_heap_empty", "arena_claim_rollback", "bitmap_claim_crossed_field", "producer_consumer_run" };
+enum { F_PREEMPT_IN_CALL = 0, F_CONFLICT, F_SPURIOUS_CAS, F_REMOTE_FREE, F_THREAD_DONE_LIVE, F_RECLAIM_SEEN, F_HEAP_DELETE_RACE, F_DELAYED_PATH, F_QUIESCENT_EMPTY, F_ARENA_ROLLBACK, F_BITMAP_CROSS, F_PC_RUN, F_REMOTE_FULL, F_REUSE_PROBE, F_NFLAGS };
+static const char* FLAG_NAMES[] = { "preempt_inside_call", "conflicting_rmw_while_preempted", "spurious_weak_cas_failure", "remote_free", "thread_done_with_live_blocks", "abandoned_segment_reclaimed_or_freed_remotely", "heap_delete_or_collect_raced", "first_remote_free_delayed_path", "quiescent_heap_empty", "arena_claim_rollback", "bitmap_claim_crossed_field", "producer_consumer_run", "remote_free_into_full_page", "reuse_probe_with_room" };
 enum { C_STEPS = 0, C_SWITCHES, C_ALLOCS, C_FREES, C_SPINS, C_WEAKCAS, C_WAITS, C_AREAS_MAX, C_NCOUNTERS };
 static const char* COUNTER_NAMES[] = { "atomic_steps", "context_switches", "allocs", "frees", "spins", "weak_cas_ops", "harness_waits", "areas_max" };
 
@@ -95,7 +95,7 @@ static bool others_not_done(int self) { for (int t = 0; t < S.nthreads; t++) if 
 
 // ---------------------------------------------------------------- model
 struct Slot { uint8_t* p = nullptr; size_t n = 0, u = 0; uint32_t key = 0; bool live = false; int by = -1; };
-static const int NSLOT = 256;
+static const int NSLOT = 1024;
 struct Model { Slot slots[NSLOT]; std::map<uintptr_t,int> live; uint32_t next_key = 1; mi_heap_t* heaps[MAXT][4] = {}; bool heap_alive[MAXT][4] = {}; };
 static Model M;
 
@@ -163,7 +163,7 @@ static void exec_op(int self, const Op& op, int opi) {
   else if (nm == "HN") { int h = (int)op.num("h"); if (h < 1 || h >= 4 || M.heap_alive[self][h]) return; call_begin(); mi_heap_t* hp = mi_heap_new(); call_end(); if (!hp) fail_now("null", "mi_heap_new returned NULL"); M.heaps[self][h] = hp; M.heap_alive[self][h] = true; }
   else if (nm == "HD") { int h = (int)op.num("h"); if (h < 1 || h >= 4 || !M.heap_alive[self][h]) return; flag(F_HEAP_DELETE_RACE); call_begin(); mi_heap_delete(M.heaps[self][h]); call_end(); M.heap_alive[self][h] = false; }
   else if (nm == "HC") { int h = (int)op.num("h"); if (h < 1 || h >= 4 || !M.heap_alive[self][h]) return; flag(F_HEAP_DELETE_RACE); call_begin(); mi_heap_collect(M.heaps[self][h], op.num("force") != 0); call_end(); }
-  else if (nm == "J") { while (others_not_done(self)) vt_wait_yield(); }
+  else if (nm == "J") { S.vt[self].waiting = true; S.vt[self].can_go = [self]() { return !others_not_done(self); }; while (others_not_done(self)) vt_wait_yield(); S.vt[self].waiting = false; }
   else if (nm == "D") { bool live_mine = false; for (auto& kv : M.live) if (M.slots[kv.second].by == self) live_mine = true; if (live_mine) flag(F_THREAD_DONE_LIVE);
     for (int h = 1; h < 4; h++) M.heap_alive[self][h] = false;
     call_begin(); mi_thread_done(); call_end(); }
@@ -248,7 +248,7 @@ static void run_program(const Case& c, Result& r, const std::string& mode) {
   uint64_t F = r.flags;
   bool conflict = (F >> F_CONFLICT) & 1;
   if (mode == "C02") r.nontrivial = conflict;
-  else if (mode == "C08") r.nontrivial = (conflict && ((F >> F_REMOTE_FREE) & 1) && ((F >> F_QUIESCENT_EMPTY) & 1)) || ((F >> F_PC_RUN) & 1);
+  else if (mode == "C08") r.nontrivial = (conflict && ((F >> F_REMOTE_FREE) & 1) && ((F >> F_QUIESCENT_EMPTY) & 1)) || ((F >> F_PC_RUN) & 1) || (((F >> F_REMOTE_FULL) & 1) && ((F >> F_REUSE_PROBE) & 1));
   else if (mode == "C09") r.nontrivial = ((F >> F_THREAD_DONE_LIVE) & 1) && ((F >> F_RECLAIM_SEEN) & 1);
   else if (mode == "C10") r.nontrivial = conflict && ((F >> F_HEAP_DELETE_RACE) & 1);
   else if (mode == "C14") r.nontrivial = ((F >> F_BITMAP_CROSS) & 1) && (((F >> F_ARENA_ROLLBACK) & 1) || conflict);
